@@ -171,6 +171,31 @@ MUST_FIRE = [
      "        if not hasattr(self, \"random_state_\"):\n            self.random_state_ = check_random_state(self.random_state)\n\n        # Create label encoder."),
     ("saw-utilities-scatter-into-zeros", ["C07"], ["R7.5"], P + "pool/multiannotator/_wrapper.py",
      "utilities = np.full((batch_size, n_samples, n_annotators), np.nan)", "utilities = np.zeros((batch_size, n_samples, n_annotators))"),
+    # ---- round-3 seeded changes, second batch
+    ("probcover-edges-cached-and-pruned", ["C08"], ["R8.11"], P + "pool/_prob_cover.py",
+     "        edges = self.distances_ <= self.delta_max_\n", "        self.edges_ = self.distances_ <= self.delta_max_\n        edges = self.edges_\n"),
+    ("ssw-ratio-over-all-samples-c08", ["C08"], ["R8.10"], P + "pool/_wrapper.py",
+     "max_candidates = ceil(len(candidates) * self.max_candidates)", "max_candidates = ceil(len(X) * self.max_candidates)"),
+    ("quire-raw-classes-after-encoding", ["C09"], ["R9.7"], P + "pool/_quire.py",
+     "classes_ = le.transform(self.classes)", "classes_ = sorted(self.classes)"),
+    ("coreset-filler-nan-constant", ["C09"], ["R9.2"], P + "pool/_core_set.py",
+     "y_cand = np.full(shape=n_new_cand, fill_value=self.missing_label)", "y_cand = np.full(shape=n_new_cand, fill_value=MISSING_LABEL)"),
+    ("cognitive-time-advanced-in-bulk", ["C10"], ["R10.8"], P + "stream/_density_uncertainty.py",
+     "                new_candidates.append(np.nan)\n            self.t_ += 1\n        call_func(",
+     "                new_candidates.append(np.nan)\n        self.t_ += len(candidates)\n        call_func(", 1),
+    ("spal-returns-unweighted-utilities", ["C10"], ["R10.9"], P + "stream/_stream_probabilistic_al.py",
+     "self.budget_manager_.query_by_utility(utilities)", "self.budget_manager_.query_by_utility(utilities * utility_weight)"),
+    ("argmin-isclose-tie-mask", ["C11", "C18"], ["R11.6", "R18.1"], SEL,
+     "        * (a == np.nanmin(a, **argmin_kwargs, keepdims=True)),", "        * np.isclose(a, np.nanmin(a, **argmin_kwargs, keepdims=True)),"),
+    ("skl-label-counts-bincount-short", ["C11"], ["R11.8"], P + "classifier/_wrapper.py",
+     "        self._label_counts = [\n            np.sum(y[is_lbld] == c) for c in range(len(self._le.classes_))\n        ]\n",
+     "        self._label_counts = np.bincount(y[is_lbld].astype(np.int64))\n"),
+    ("alr-column-reads-unmasked", ["C12"], ["R12.1"], P + "classifier/multiannotator/_annotator_logistic_regression.py",
+     "w_j = sample_weight[is_lbld[:, j], j].reshape(-1, 1)", "w_j = sample_weight[:, j].reshape(-1, 1)"),
+    ("nic-weights-stored-on-one-path", ["C13"], ["R13.5"], P + "regressor/_nic_kernel_regressor.py",
+     "        else:\n            self.weights_ = None\n", ""),
+    ("sliding-window-head-truncation", ["C13"], ["R13.3"], P + "classifier/_wrapper.py",
+     "    def _add_samples(self, fit_func, X, y, sample_weight=None):\n", "    def _add_samples(self, fit_func, X, y, sample_weight=None):\n        if self.window_size is not None and len(X) > self.window_size:\n            X, y = X[: self.window_size], y[: self.window_size]\n"),
     # ---- C03
     ("split-set-state-deleted", ["C03"], ["R3"], BZ,
      "        self.random_state_.set_state(random_state_state)\n", "        pass\n"),
